@@ -347,9 +347,13 @@ def check_C17(tier, seed):
     rng = random.Random(seed)
     exe = C.build_dyn()
     policies = ["fast", "vec", "map", "stdd"]
-    universes = UNIVERSES_QUICK if tier == "quick" else UNIVERSES_THOROUGH
+    universes = UNIVERSES_QUICK + [("GenReg_N4A2D3.cfg", 4, 2)] if tier == "quick" else UNIVERSES_THOROUGH
     for cfg, n, ar in universes:
         regs = F.gen_registries(cfg, out)
+        if tier == "quick" and cfg == "GenReg_N4A2D3.cfg":
+            # three definitions of a two-parameter method: the smallest universe in which two cells can show the same conflict
+            regs = rng.sample(regs, min(len(regs), 5000))
+            out.notes.append("%s: 5000 registries sampled (quick)" % cfg)
         scs = []
         classes = list(range(1, n + 1))
         for i, reg in enumerate(regs):
